@@ -179,6 +179,11 @@ def Send.write (s : Send) (n limit : Nat) : Option (Except WriteErr (Nat × Send
         some (.ok (k, { s with pending := s.pending.write k }))
     else none
 
+/-- the test `SendStream::write_source` makes before looking at the connection-level limit: a
+    writable half the peer stopped reports the stop -/
+def Send.stoppedFirst (s : Send) : Option Nat :=
+  if Gen.writeStoppedFirst && s.isWritable then s.stopReason else none
+
 /-- `Send::finish` -/
 def Send.finish (s : Send) : Except WriteErr Send :=
   match s.stopReason with
